@@ -837,6 +837,9 @@ func (c *Check) verdict(runs []*harnessRun, ld *gosym.Loaded, loadS float64) int
 					break
 				}
 			}
+			if st.Truncated {
+				notes = append(notes, fmt.Sprintf("INCONCLUSIVE %s: path cap reached, exploration truncated after %d paths", hr.def.Name, st.Paths))
+			}
 			if exit == 0 {
 				exit = 2
 			}
